@@ -1,6 +1,7 @@
 (* C20 — Lazily initialised shared state is safe under every thread interleaving.  Statements only. *)
-From Coq Require Import List Arith Bool ZArith Permutation.
-From KV Require Import Base.Sx Gen.Generated Model.LazyInit Proofs.LazyInitP Model.TaskGraph Proofs.TaskGraphP.
+From Coq Require Import List Arith Bool ZArith Permutation String.
+From KV Require Import Base.Sx Gen.Generated Model.LazyInit Proofs.LazyInitP Model.TaskGraph Proofs.TaskGraphP
+                       Model.Guarded Proofs.GuardedP Model.SharedSites Proofs.SharedSitesP Model.LockOrder Proofs.LockOrderP Proofs.ReqProgP.
 Import ListNotations.
 Close Scope Z_scope.
 Open Scope nat_scope.
@@ -140,11 +141,11 @@ Print Assumptions C20_sched_sound.
    arrays), what the one-worker, one-task-at-a-time load returns *)
 Theorem C20_threaded_load_eq_single : forall (V : Type) (g : graph V) es,
   wf V g = true -> all_done V g (crun V g es) = true ->
-  forall i, i < length g -> c_done (crun V g es) i = c_done (crun V g (sync_events (length g))) i.
+  forall i, i < List.length g -> c_done (crun V g es) i = c_done (crun V g (sync_events (List.length g))) i.
 Proof. exact threaded_eq_single. Qed.
 Print Assumptions C20_threaded_load_eq_single.
 Theorem C20_sync_is_sequential : forall (V : Type) (g : graph V),
-  wf V g = true -> forall i, c_done (crun V g (sync_events (length g))) i = seq_run V g i.
+  wf V g = true -> forall i, c_done (crun V g (sync_events (List.length g))) i = seq_run V g i.
 Proof. exact sync_is_seq. Qed.
 Print Assumptions C20_sync_is_sequential.
 (* no task is handed out twice; an unfinished load can always continue (no schedule deadlocks the scheduler) *)
@@ -166,3 +167,258 @@ Theorem C20_store_overlap_refuted :
   exists ws ws' p, Permutation ws ws' /\ apply_writes nat ws (vempty nat) p <> apply_writes nat ws' (vempty nat) p.
 Proof. exact writes_overlap_refuted. Qed.
 Print Assumptions C20_store_overlap_refuted.
+
+(* ====================================================================================================================
+   EXTENSION: the remaining lazily initialised / shared mutable sites reachable from the accesses the property lists
+   ==================================================================================================================== *)
+
+(* GENERIC GUARDED OBJECT: any shared state, any thread-local state, ANY deterministic `line` function (one source line
+   of the critical section, which may end normally -- also with a legitimate exception -- or crash): for every number of
+   threads and every schedule the interleaved run is the serial run of the sections in the order in which they were left *)
+Theorem C20_guarded_serializable : forall (Sh Lo : Type) (line : Sh -> Lo -> act Sh Lo) (start : nat -> Lo) sh0 schedule,
+  GInv Sh Lo line start sh0 (gexec Sh Lo line start sh0 schedule).
+Proof. exact g_serializable. Qed.
+Print Assumptions C20_guarded_serializable.
+
+(* ---------- extracting sensors / instantiating virtual sensors: the sensor cache as a memoised DAG ---------- *)
+(* VALUES, for every well-founded set of virtual-sensor templates g, every set of threads asking for any names (existing
+   or not) and EVERY interleaving -- even if no lock were taken at all: nothing crashes, every cached value and every
+   value a virtual-sensor function has fetched so far is the single-thread value (consistent state at every line), every
+   thread that returned got the single-thread value of its name, KeyError exactly for names nothing creates *)
+Theorem C20_sensor_values_any_interleaving : forall (V : Type) (g : graph V) virt want lookup_first schedule,
+  wf V g = true ->
+  let c := uexec _ _ (mline V g virt true lookup_first) (mstart V want) (m0 V) schedule in
+  (forall t, g_th c t <> GFail) /\
+  (forall t lo, g_th c t = GDone lo -> mpost V g want t lo) /\
+  cons V g (g_sh c) /\
+  (forall t lo, g_th c t = GIn lo -> Jl V g want t lo).
+Proof. intros V g virt want lf schedule Hwf. exact (memo_values_safe V g virt want Hwf lf schedule). Qed.
+Print Assumptions C20_sensor_values_any_interleaving.
+(* ONCE, with the lock of the kind found in the source and the look-up-before-templates order found in the source: the same
+   for the locked machine, and whenever the lock is free every cached name has been created exactly once, the others never;
+   a thread inside holds the lock and the names it is creating are not in the cache yet *)
+Theorem C20_sensor_created_once : forall (V : Type) (g : graph V) virt want schedule,
+  wf V g = true ->
+  let c := gexec _ _ (mline V g virt sensor_reentrant c20_sensor_get_lookup_first) (mstart V want) (m0 V) schedule in
+  (forall t, g_th c t <> GFail) /\
+  (forall t lo, g_th c t = GDone lo -> mpost V g want t lo) /\
+  (g_lock c = None -> IL V g (g_sh c)) /\
+  (forall t lo, g_th c t = GIn lo -> g_lock c = Some t /\ JL V g want t (g_sh c) lo).
+Proof. intros V g virt want schedule Hwf. exact (memo_locked_once V g virt want Hwf schedule). Qed.
+Print Assumptions C20_sensor_created_once.
+Theorem C20_sensor_count_le_1 : forall (V : Type) (g : graph V) virt want schedule k,
+  wf V g = true ->
+  m_count (g_sh (gexec _ _ (mline V g virt sensor_reentrant c20_sensor_get_lookup_first) (mstart V want) (m0 V) schedule)) k <= 1.
+Proof. intros V g virt want schedule k Hwf. exact (memo_count_le_1 V g virt want Hwf schedule k). Qed.
+Print Assumptions C20_sensor_count_le_1.
+(* NOTHING HANGS: in every reachable configuration the thread that is inside completes its request by its own lines
+   alone (every nested acquisition succeeds, the recursion through the templates ends) *)
+Theorem C20_sensor_holder_finishes : forall (V : Type) (g : graph V) virt want schedule,
+  wf V g = true ->
+  let c := gexec _ _ (mline V g virt sensor_reentrant c20_sensor_get_lookup_first) (mstart V want) (m0 V) schedule in
+  forall t lo, g_th c t = GIn lo ->
+  exists sh' lo', cs_run _ _ (mline V g virt sensor_reentrant c20_sensor_get_lookup_first) (g_sh c) lo sh' (OFin lo').
+Proof. intros V g virt want schedule Hwf. exact (memo_holder_finishes V g virt want Hwf true schedule). Qed.
+Print Assumptions C20_sensor_holder_finishes.
+(* what the lock, its kind, the look-up order and well-foundedness buy (each: a concrete counter-example) *)
+Theorem C20_sensor_unlocked_twice_refuted :
+  exists schedule, m_count (g_sh (uexec _ _ (mline nat g2 (fun k => Nat.eqb k 1) true true) (mstart nat (fun _ => 0)) (m0 nat) schedule)) 0 = 2.
+Proof. exact memo_unlocked_twice. Qed.
+Print Assumptions C20_sensor_unlocked_twice_refuted.
+Theorem C20_sensor_plain_lock_refuted :
+  exists schedule, g_th (gexec _ _ (mline nat g2 (fun k => Nat.eqb k 1) false true) (mstart nat (fun _ => 1)) (m0 nat) schedule) 0 = GFail.
+Proof. exact memo_plain_lock_crashes. Qed.
+Print Assumptions C20_sensor_plain_lock_refuted.
+Theorem C20_sensor_templates_first_refuted :
+  exists schedule, m_count (g_sh (gexec _ _ (mline nat g2 (fun k => Nat.eqb k 1) true false) (mstart nat (fun _ => 0)) (m0 nat) schedule)) 0 = 2.
+Proof. exact memo_templates_first_twice. Qed.
+Print Assumptions C20_sensor_templates_first_refuted.
+Theorem C20_sensor_cycle_refuted :
+  run_cs _ _ (mline nat [mkTask [0] (fun _ => 0)] (fun _ => true) true true) 300 (m0 nat) (mstart nat (fun _ => 0) 0) = None.
+Proof. exact memo_cycle_refuted. Qed.
+Print Assumptions C20_sensor_cycle_refuted.
+(* non-vacuity: two threads, a virtual sensor built from a raw one, an interleaved schedule: both finish with the
+   single-thread values, both names created once *)
+Theorem C20_sensor_example :
+  let c := gexec _ _ (mline nat g2 (fun k => Nat.eqb k 1) sensor_reentrant c20_sensor_get_lookup_first)
+                 (mstart nat (fun t => 1 - t)) (m0 nat) [0; 0; 1; 0; 0; 0; 1; 0; 0; 0; 0; 1; 1; 1; 1] in
+  option_map (mresult nat) (match g_th c 0 with GDone lo => Some lo | _ => None end) = Some (Some 8) /\
+  option_map (mresult nat) (match g_th c 1 with GDone lo => Some lo | _ => None end) = Some (Some 7) /\
+  map (m_count (g_sh c)) [0; 1] = [1; 1].
+Proof. exact memo_example. Qed.
+Print Assumptions C20_sensor_example.
+(* every virtual-sensor function of katdal (dataset.py, h5datav1-3.py, visdatav4.py), AS TRANSLATED, has the shape of a
+   frame of the machine: fetch all inputs with cache.get, compute, store complete values, return a stored value -- no
+   fetch after the first store, no in-place change of a fetched (cached) input; the statement discriminates *)
+Theorem C20_virtual_functions_fit : forallb (fun p => skel_ok (snd p)) c20_virtual_fn_skeletons = true.
+Proof. exact virtual_functions_fit. Qed.
+Print Assumptions C20_virtual_functions_fit.
+Theorem C20_virtual_functions_fit_example :
+  skel_ok [4; 1; 1; 4; 2; 2; 3]%Z = true /\ skel_ok [1; 2; 1; 3]%Z = false /\ skel_ok [1; 2; 5]%Z = false /\ skel_ok [1; 6; 2; 3]%Z = false.
+Proof. exact skel_ok_example. Qed.
+Print Assumptions C20_virtual_functions_fit_example.
+
+(* ---------- the wildcard property map (_get_props AS TRANSLATED: own entry, one pass over the map, return) ---------- *)
+(* inside a lock, for any initial map, any classification of its keys into patterns and names, any threads extracting any
+   sensors: the iteration never meets a map that changed size (RuntimeError), every thread merges exactly the pattern
+   entries a single thread would, the pattern entries are never disturbed *)
+Theorem C20_props_locked_safe : forall wild name sh0 schedule,
+  (forall t, wild (name t) = false) ->
+  let c := gexec _ _ pline (pstart c20_props_code name) sh0 schedule in
+  (forall t, g_th c t <> GFail) /\
+  (forall t lo, g_th c t = GDone lo -> PPost wild sh0 t lo) /\
+  (g_lock c = None -> PI wild sh0 (g_sh c)) /\
+  (forall t lo, g_th c t = GIn lo -> g_lock c = Some t /\ PJ wild name sh0 c20_props_code t (g_sh c) lo).
+Proof. intros wild name sh0 schedule Hn. exact (props_locked_safe wild name Hn sh0 c20_props_code props_code_is_ok schedule). Qed.
+Print Assumptions C20_props_locked_safe.
+(* FINDING C20-F1 (repaired on branch fix-C20x): ConcatenatedSensorCache.get ran this code on its merged map with no lock *)
+Theorem C20_props_unlocked_refuted :
+  exists schedule, g_th (uexec _ _ pline (pstart c20_props_code (fun t => 5 + t)) [9] schedule) 0 = GFail.
+Proof. exact props_unlocked_refuted. Qed.
+Print Assumptions C20_props_unlocked_refuted.
+Theorem C20_props_example :
+  let c := gexec _ _ pline (pstart c20_props_code (fun t => 5 + t)) [9; 2] [0; 0; 0; 1; 1; 0; 0; 0; 0; 0; 0; 0; 1; 1; 1; 1; 1; 1; 1; 1; 1; 1] in
+  match g_th c 0, g_th c 1 with
+  | GDone a, GDone b => filter (fun k => Nat.eqb k 9) (p_seen a) = [9] /\ p_seen b = [9; 2; 5; 6]
+  | _, _ => False
+  end.
+Proof. exact props_example. Qed.
+Print Assumptions C20_props_example.
+(* the merged property map of ConcatenatedSensorCache now has a guard: an RLock created once in __init__, every access
+   to self.props outside __init__ inside it *)
+Theorem C20_concat_props_guarded :
+  c20_concat_lock_kind = 2%Z /\ c20_concat_lock_once = true /\ only_init c20_concat_props_unlocked_methods = true.
+Proof. exact concat_props_guarded. Qed.
+Print Assumptions C20_concat_props_guarded.
+
+(* ---------- S3ChunkStore._verified_buckets: an UNLOCKED test / list / add on a set (statement order translated) ---------- *)
+(* for every server state (status: ANY function), any threads checking any buckets, EVERY interleaving: only buckets
+   that exist and are not empty are ever remembered, and every thread ends as a single thread on a fresh store would
+   (StoreUnavailable for a missing or empty bucket, plain return otherwise) *)
+Theorem C20_verified_buckets_safe : forall status bucket schedule,
+  let c := uexec _ _ (vline status c20_verify_bucket_code) (vstart bucket) [] schedule in
+  (forall t, g_th c t <> GFail) /\
+  (forall t lo, g_th c t = GDone lo -> VPost status bucket t lo) /\
+  VC status (g_sh c).
+Proof. intros status bucket schedule. exact (verify_unlocked_safe status c20_verify_bucket_code bucket verify_code_is_ok schedule). Qed.
+Print Assumptions C20_verified_buckets_safe.
+Theorem C20_verified_buckets_add_first_refuted :
+  exists schedule, match g_th (uexec _ _ (vline (fun _ => 0%Z) [0; 4; 1; 2; 3]%Z) (vstart (fun _ => 7)) [] schedule) 1 with
+                   | GDone lo => v_out lo <> vspec (fun _ => 0%Z) 7
+                   | _ => False end.
+Proof. exact verify_add_first_refuted. Qed.
+Print Assumptions C20_verified_buckets_add_first_refuted.
+Theorem C20_verified_buckets_example :
+  let c := uexec _ _ (vline (fun b => Z.of_nat b) c20_verify_bucket_code) (vstart (fun t => t)) []
+                 [2; 2; 3; 3; 2; 3; 2; 3; 2; 3; 2; 3; 2; 3; 2; 3; 0; 0; 0; 1; 1; 1; 1; 1] in
+  map (fun t => match g_th c t with GDone lo => v_out lo | _ => (-1)%Z end) [0; 1; 2; 3] = [2; 2; 1; 1]%Z /\ g_sh c = [3; 2].
+Proof. exact verify_example. Qed.
+Print Assumptions C20_verified_buckets_example.
+(* the set is created empty in __init__, touched by _verify_bucket only, and get_chunk consults it on a missing object *)
+Theorem C20_verified_buckets_site :
+  c20_verified_buckets_users = ["__init__"%string; "_verify_bucket"%string] /\ c20_verified_buckets_init_empty = true /\
+  c20_get_chunk_verifies_on_404 = true.
+Proof. exact verify_site_facts. Qed.
+Print Assumptions C20_verified_buckets_site.
+
+(* ---------- the session pool across retries and back-off sleeps ---------- *)
+(* ANY sequence of borrow / send / sleep / give back / lose events by any threads: the pool never raises, a session that a
+   request sends through is in no other hands and not in the free list (also while its holder sleeps), made = free +
+   borrowed + lost, lost only through requests that ended with an exception *)
+Theorem C20_request_sessions_exclusive : forall evs,
+  let r := fold_left rstep evs rinit in
+  p_err (r_pool r) = false /\ r_clash r = false /\
+  NoDup (p_free (r_pool r) ++ map snd (p_held (r_pool r))) /\
+  p_next (r_pool r) = List.length (p_free (r_pool r)) + List.length (p_held (r_pool r)) + r_lost r /\
+  r_lost r <= List.length (filter is_drop evs).
+Proof. exact request_pool_safe. Qed.
+Print Assumptions C20_request_sessions_exclusive.
+(* one request AS TRANSLATED (sleep inside the `with`, no finally in _Pool.__call__) borrows exactly once whatever its
+   attempts do; with a finally clause no session would ever be lost *)
+Theorem C20_request_one_borrow : forall t outs,
+  List.length (filter (fun o => match o with RGet _ => true | _ => false end)
+                      (request_events c20_pool_call_finally c20_request_sleep_in_borrow t outs)) = 1.
+Proof. exact (request_one_borrow c20_pool_call_finally). Qed.
+Print Assumptions C20_request_one_borrow.
+Theorem C20_request_no_loss_with_finally : forall s t outs, filter is_drop (request_events true s t outs) = [].
+Proof. exact request_no_drop_with_finally. Qed.
+Print Assumptions C20_request_no_loss_with_finally.
+Theorem C20_request_example :
+  let evs := request_events c20_pool_call_finally c20_request_sleep_in_borrow 0 [0; 1]%Z ++
+             request_events c20_pool_call_finally c20_request_sleep_in_borrow 1 [2]%Z ++
+             request_events c20_pool_call_finally c20_request_sleep_in_borrow 1 [1]%Z in
+  let r := fold_left rstep evs rinit in
+  p_free (r_pool r) = [1] /\ r_lost r = 1 /\ p_next (r_pool r) = 2 /\ r_unheld r = false.
+Proof. exact request_example. Qed.
+Print Assumptions C20_request_example.
+
+(* ---------- several locks taken in a fixed order (nested DaskLazyIndexer objects, the concatenated sensor cache and its parts) ---------- *)
+(* plain locks named by their rank; every thread asks only for a lock that ranks above all it holds, releases in reverse
+   order and ends holding nothing (`ordered`).  For ANY finite set of threads, programs and schedule:
+   NO DEADLOCK -- as long as some thread has not finished, some thread can take its next step;
+   MUTUAL EXCLUSION -- no lock is ever held by two threads. *)
+Theorem C20_lock_order_no_deadlock : forall ts prog schedule,
+  (forall t, ordered [] (prog t) = true) -> (forall t, ~ In t ts -> prog t = []) ->
+  let c := hexec ts (hinit prog) schedule in
+  (exists t, In t ts /\ h_prog c t <> []) ->
+  exists t, In t ts /\ List.length (h_prog (hstep ts c t) t) < List.length (h_prog c t).
+Proof. exact hier_no_deadlock. Qed.
+Print Assumptions C20_lock_order_no_deadlock.
+Theorem C20_lock_order_mutex : forall ts prog schedule,
+  (forall t, ordered [] (prog t) = true) -> (forall t, ~ In t ts -> prog t = []) ->
+  let c := hexec ts (hinit prog) schedule in
+  forall t1 t2 l, In t1 ts -> In t2 ts -> In l (h_held c t1) -> In l (h_held c t2) -> t1 = t2.
+Proof. exact hier_mutex. Qed.
+Print Assumptions C20_lock_order_mutex.
+(* the discipline is needed (two locks, opposite orders: both threads blocked for ever); and it is not vacuous (two outer
+   indexers over one inner one, interleaved, both finish) *)
+Theorem C20_lock_order_unordered_refuted :
+  let c := hexec [0; 1] (hinit cross) [0; 1] in
+  h_prog c 0 <> [] /\ hstep [0; 1] c 0 = c /\ hstep [0; 1] c 1 = c.
+Proof. exact unordered_deadlock. Qed.
+Print Assumptions C20_lock_order_unordered_refuted.
+Theorem C20_lock_order_example :
+  (forall t, ordered [] (nested2 t) = true) /\
+  let c := hexec [0; 1] (hinit nested2) [0; 1; 0; 1; 1; 0; 0; 1; 1; 1] in h_prog c 0 = [] /\ h_prog c 1 = [].
+Proof. exact nested_example. Qed.
+Print Assumptions C20_lock_order_example.
+
+(* ---------- non-vacuity of the first-round theorems: concrete finished runs ---------- *)
+Theorem C20_lazy_init_example :
+  let c := exec nat nat Datatypes.S site_dask (mkSh None (Some 41) 0) [0; 1; 0; 1; 0; 0; 1; 0; 0; 0; 0; 0; 0; 1; 1; 1; 1; 1; 1; 1; 1; 1; 1] in
+  done_val (c_th c 0) = Some 42 /\ done_val (c_th c 1) = Some 42 /\ ncomp (c_sh c) = 1 /\ c_lock c = None.
+Proof. exact lazy_init_example. Qed.
+Print Assumptions C20_lazy_init_example.
+Theorem C20_pool_example :
+  let p := fold_left pool_step [PGet 0; PGet 1; PPut 0; PGet 2; PPut 1; PPut 2] pool_init in
+  p_next p = 2 /\ p_held p = [] /\ List.length (p_free p) = 2 /\ p_err p = false.
+Proof. exact pool_example. Qed.
+Print Assumptions C20_pool_example.
+Theorem C20_sched_example :
+  let es := [Start 0 0; Finish 0; Start 1 2; Start 0 1; Finish 1; Finish 0; Start 1 3; Finish 1] in
+  wf nat gdia = true /\ all_done nat gdia (crun nat gdia es) = true /\
+  map (c_done (crun nat gdia es)) [0; 1; 2; 3] = [Some 3; Some 13; Some 23; Some 299] /\
+  map (seq_run nat gdia) [0; 1; 2; 3] = [Some 3; Some 13; Some 23; Some 299].
+Proof. exact sched_example. Qed.
+Print Assumptions C20_sched_example.
+
+(* ---------- threads RUNNING request programs against the pool ---------- *)
+(* ANY threads, each running ANY sequence of S3ChunkStore.request calls with ANY attempt outcomes (retried / succeeded /
+   raised / retries exhausted), whatever the two translated flags are, under EVERY interleaving: the pool never raises, no
+   attempt is sent without a borrowed session or through a session that is free or in other hands; once every thread has
+   finished nothing is borrowed any more and made = free + lost *)
+Theorem C20_requests_safe : forall fin sleep_in (reqs : nat -> list (list Z)) schedule,
+  let c := rcexec (fun t => thread_prog fin sleep_in t (reqs t)) schedule in
+  let r := rc_pool c in
+  p_err (r_pool r) = false /\ r_clash r = false /\ r_unheld r = false /\
+  ((forall t, rc_rem c t = []) -> p_held (r_pool r) = [] /\ p_next (r_pool r) = List.length (p_free (r_pool r)) + r_lost r).
+Proof. exact requests_safe. Qed.
+Print Assumptions C20_requests_safe.
+Theorem C20_requests_example :
+  let reqs := fun t : nat => match t with 0 => [[0%Z; 1%Z]; [1%Z]] | 1 => [[2%Z]; [0%Z; 0%Z; 1%Z]] | 2 => [[1%Z]] | _ => [] end in
+  let c := rcexec (fun t => thread_prog c20_pool_call_finally c20_request_sleep_in_borrow t (reqs t))
+                  [0; 1; 2; 0; 1; 1; 2; 2; 0; 0; 0; 1; 1; 0; 0; 0; 1; 1; 1; 1; 1; 1; 1; 1] in
+  (forall t, t < 3 -> rc_rem c t = []) /\ r_lost (rc_pool c) = 1 /\ p_next (r_pool (rc_pool c)) = 3 /\
+  List.length (p_free (r_pool (rc_pool c))) = 2.
+Proof. exact requests_example. Qed.
+Print Assumptions C20_requests_example.
